@@ -76,12 +76,20 @@ def gen_field(rng, malformed=False):
         return ("FAdaptive", rng.choice([0, 0xFF000000 - 1, 0xFF000000, 0xFF000001, 2 ** 32 - 1, 2 ** 32,
                                          rng.getrandbits(31), rng.getrandbits(200), abs(boundary_int(rng, 600))]))
     if k == "KString":
+        if rng.random() < 0.2:
+            return ("FString", "".join(rng.choice("ab \u00e9\u00df\u4e2d\U0001f511") for _ in
+                                       range(rng.randrange(0, 12))).encode("utf-8"))
         return ("FString", rand_bytes(rng, 40))
     if k == "KList":
         n = rng.randrange(1, 5)
         items = []
         for _ in range(n):
-            items.append(bytes(rng.choice(b"abcxyz-@.0129") for _ in range(rng.randrange(0, 8))))
+            if rng.random() < 0.25:
+                # non-ASCII names: the length prefix counts UTF-8 bytes, not characters
+                items.append("".join(rng.choice("abz-@.09\u00e9\u00fc\u4e2d\U0001f511") for _ in
+                                     range(rng.randrange(1, 6))).encode("utf-8"))
+            else:
+                items.append(bytes(rng.choice(b"abcxyz-@.0129") for _ in range(rng.randrange(0, 8))))
         return ("FList", items)
     return ("FMpint", boundary_int(rng, 600))
 
@@ -103,7 +111,12 @@ def impl_encode(fs):
             elif t == "FAdaptive":
                 m.add_adaptive_int(v)
             elif t == "FString":
-                m.add_string(v)
+                try:
+                    sv = bytes(v).decode("utf-8")
+                except UnicodeDecodeError:
+                    sv = None
+                # a str argument goes through util.asbytes (UTF-8): same bytes expected
+                m.add_string(sv if (sv is not None and len(v) % 2 == 1) else v)
             elif t == "FList":
                 m.add_list([x.decode() for x in v])
             elif t == "FMpint":
@@ -278,8 +291,14 @@ def run(ctx):
             kinds = [{"FByte": "KByte", "FBool": "KBool", "FU32": "KU32", "FU64": "KU64", "FAdaptive": "KAdaptive",
                       "FString": "KString", "FList": "KList", "FMpint": "KMpint"}[t] for t, _ in fs]
             suffix = rand_bytes(rng, 6)
-            _, back, sofar, rem = impl_decode(kinds, raw + suffix)
             wf = all(not (t == "FAdaptive" and v < 0) for t, v in fs)
+            try:
+                _, back, sofar, rem = impl_decode(kinds, raw + suffix)
+            except Exception as e:  # noqa: the written fields must always be readable
+                if wf:
+                    ctx.fail("roundtrip-raises", "reading back the written fields raised %s" % type(e).__name__,
+                             case={"fields": fs}, expected=fs, observed=repr(e))
+                continue
             if wf and not fields_equal(fs, back):
                 ctx.fail("roundtrip", "fields written are not read back unchanged", case={"fields": fs},
                          expected=fs, observed=back)
